@@ -236,7 +236,7 @@ def run(ctx):
     ctx.trusted += ['tools/gen_junior.py, tools/gen_tables.py (tables -> scaled integers)',
                     'the sweep compares the implementation with itself only (no model in the verdict); binary floating point is observed, not modelled']
     ctx.assumptions += ['Hungarian timed events: monotonicity is demanded only for marks no slower than the zero-point mark (-b), as the property says; the tail beyond it is observed and reported in the evidence only',
-                        'combined events with a masters age: events without a WMA factor raise ValueError (outside the property, skipped)',
+                        'combined events with a masters age: events without a WMA factor raise ValueError (no score to compare: skipped here; the refusal itself is the known finding C01-scored-row-without-age-factor)',
                         'an exception inside a grid is a C11/C01 matter (correspondence), not reported here; a non-int return value is']
     side = c11.gen_step(ctx)
     aside = c01.gen_step(ctx)
